@@ -1171,12 +1171,14 @@ class Interp:
                 else:
                     chain = frame.returns + [(self.live, result)]
                 # ite-chain of guarded returns
+                self.last_return_chain = chain
                 val = chain[-1][1]
                 for g, v in reversed(chain[:-1]):
                     val = self.merge(g, v, val, fv.node)
                 return val
             if result is _DEAD:
                 return None
+            self.last_return_chain = [(X.TRUE, result)]
             return result
         finally:
             self.live = live0
